@@ -36,13 +36,15 @@ theorem fact_parseJWS :
     Facts.C17.parseJWSErrConds =
       ["err != nil", "len(signatures) != 1", "!jwx.IsAlgorithmSupported(alg)", "err != nil", "!jwx.AlgorithmFitsKey(alg, key)"] := by decide
 
-/-- dpop.Parse: its first seven error exits, in order, are the signature discipline (parse, one signature, alg on the
-    shared allow-list, typ, jwk present, jwk not private, jwt.ParseString WithKey(alg, jwk)); what follows are claim
+/-- dpop.Parse: its first eight error exits, in order, are the signature discipline (parse, one signature, alg on the
+    shared allow-list, typ, jwk present, jwk not private, alg fits the jwk's curve, jwt.ParseString WithKey(alg, jwk)); what follows are claim
     checks (C19's concern, summarised by the harness as one verdict) -/
 theorem fact_dpopParse :
-    Facts.C17.dpopParseErrConds.take 7 =
+    Facts.C17.dpopParseErrConds.take 8 =
       ["err != nil", "len(message.Signatures()) != 1", "!slices.Contains(jwx.SupportedAlgorithms, headers.Algorithm())",
-       "headers.Type() != \"dpop+jwt\"", "headers.JWK() == nil", "jwkIsPrivateKey(headers.JWK())", "err != nil"] ∧
+       "headers.Type() != \"dpop+jwt\"", "headers.JWK() == nil", "jwkIsPrivateKey(headers.JWK())",
+       "!jwx.AlgorithmFitsKey(headers.Algorithm(), headers.JWK())", "err != nil"] ∧
+    Facts.C17.dpopChecksAlgFit = true ∧
     Facts.C17.dpopTyp = "dpop+jwt" ∧ "jwt.WithKey" ∈ Facts.C17.dpopParseCalls ∧
     Facts.C17.dpopVerifyCall = "jwt.ParseString(s, jwt.WithKey(headers.Algorithm(), headers.JWK()))" := by decide
 
@@ -166,12 +168,12 @@ theorem parseJWS_splitCompact_mode_accepts_two_uncovered :
 theorem accept_dpop (E : Env) (claimsOK : Bool) (j : Jws) (vs : List Verified)
     (h : dpopParse Facts.C17.supportedAlgs Facts.C17.dpopTyp E claimsOK j = .accept vs) :
     Disciplined Facts.C17.supportedAlgs j vs (fun s v =>
-      v.src = .embedded 0 ∧ E.embeddedKey 0 = some v.key ∧ E.verifies v.key s.alg 0 = true ∧
+      v.src = .embedded 0 ∧ E.embeddedKey 0 = some v.key ∧ E.verifies v.key s.alg 0 = true ∧ E.fits v.key s.alg = true ∧
       s.typ = "dpop+jwt" ∧ s.jwk ≠ .absent ∧ s.jwk ≠ .priv ∧
       ((∀ k a, s.jwk = .sym → E.verifies k a 0 = false) → s.jwk = .pub)) := by
-  obtain ⟨s, k, hs, hv, hal, htyp, hj1, hj2, hek, hver⟩ := dpop_accept h
-  refine ⟨s, _, hs, hv, rfl, rfl, hal, allowed_lists_asymmetric.1 _ hal, rfl, rfl, hek, hver, ?_, hj1, hj2, ?_⟩
-  · rw [htyp]; exact fact_dpopParse.2.1
+  obtain ⟨s, k, hs, hv, hal, htyp, hj1, hj2, hek, hver, hfit⟩ := dpop_accept h
+  refine ⟨s, _, hs, hv, rfl, rfl, hal, allowed_lists_asymmetric.1 _ hal, rfl, rfl, hek, hver, hfit, ?_, hj1, hj2, ?_⟩
+  · rw [htyp]; exact fact_dpopParse.2.2.1
   · intro hc
     cases hk : s.jwk with
     | absent => exact absurd hk hj1
